@@ -51,6 +51,8 @@ pub enum ProgramRegistryError {
     FunctionWithUnstorableType { func_id: FunctionId, ty: ConcreteTypeId },
     #[error("Function `{0}` points to non existing entry point statement.")]
     FunctionNonExistingEntryPoint(FunctionId),
+    #[error("Function `{0}`'s parameter types do not match its signature.")]
+    FunctionParamsSignatureMismatch(FunctionId),
     #[error("#{0}: Libfunc invocation input count mismatch")]
     LibfuncInvocationInputCountMismatch(StatementIdx),
     #[error("#{0}: Libfunc invocation branch count mismatch")]
@@ -158,6 +160,13 @@ impl<TType: GenericType, TLibfunc: GenericLibfunc> ProgramRegistry<TType, TLibfu
             }
             if func.entry_point.0 >= program.statements.len() {
                 return Err(Box::new(ProgramRegistryError::FunctionNonExistingEntryPoint(
+                    func.id.clone(),
+                )));
+            }
+            // Callers are checked against the signature and the body against the parameters - the
+            // two must agree (a deserialized program may hold them separately).
+            if !func.params.iter().map(|param| &param.ty).eq(func.signature.param_types.iter()) {
+                return Err(Box::new(ProgramRegistryError::FunctionParamsSignatureMismatch(
                     func.id.clone(),
                 )));
             }
